@@ -89,6 +89,8 @@ def classify(spec):
                     feats.add('weights')
             if len(c['hh']) > 1:
                 feats.add('two-households')
+            if c.get('nested_codes'):
+                feats.add('nested-sector-codes')
     for l in spec['links']:
         cross = l['src'][0] != l['dst'][0]
         feats.add(('cross-' if cross else 'intra-') + l['kind'])
